@@ -193,6 +193,10 @@ pub fn run(rep: &mut Report) {
             rep.sample(json!({"pattern": out.pattern}));
         }
     });
+    if rep.tier == "thorough" {
+        // the verdict can flip between profiles (debug_assertions, overflow checks): repeat in release
+        crate::subrun::merge(rep, "L4V_BIN_RELEASE", "C09", "release");
+    }
     rep.require(rep.counter("style_events_observed") > 100, "fewer than 100 style events observed");
     rep.require(rep.counter("cases_on_named_threads") > 10, "no cases on named threads");
 }
